@@ -42,7 +42,15 @@ class RegexLang:
             self.alts = []
             return
         self.groupnames = {v: k for k, v in tree.state.groupdict.items()}
-        self.icase = bool((flags | tree.state.flags) & re.I)
+        allflags = flags | tree.state.flags
+        self.icase = bool(allflags & re.I)
+        self.ascii = bool(allflags & re.A)
+        if allflags & (re.M | re.S | re.X | re.L):
+            # multi-line anchors / dot-all / verbose are not modelled
+            if allflags & (re.M | re.L):
+                self.ok = False
+                self.alts = []
+                return
         items = list(tree)
         if items and items[0][0] is C.AT and items[0][1] is C.AT_BEGINNING:
             self.anch_start = True
@@ -59,18 +67,19 @@ class RegexLang:
     # ---- classes
     def _cat(self, cat, negate=False):
         B = self.B
+        A = B.pred_cls('ascii') if getattr(self, 'ascii', False) else B.ALL
         if cat is C.CATEGORY_DIGIT:
-            c = B.pred_cls('Nd')
+            c = B.pred_cls('Nd') & A
         elif cat is C.CATEGORY_NOT_DIGIT:
-            c = B.ALL - B.pred_cls('Nd')
+            c = B.ALL - (B.pred_cls('Nd') & A)
         elif cat is C.CATEGORY_WORD:
-            c = B.pred_cls('word')
+            c = B.pred_cls('word') & A
         elif cat is C.CATEGORY_NOT_WORD:
-            c = B.ALL - B.pred_cls('word')
+            c = B.ALL - (B.pred_cls('word') & A)
         elif cat is C.CATEGORY_SPACE:
-            c = B.pred_cls('isspace')
+            c = (B.pred_cls('isspace') & A) if getattr(self, 'ascii', False) else B.cls_of_chars(' \t\n\r\f\v') | (B.pred_cls('isspace') - B.cls_of_chars('\x1c\x1d\x1e\x1f\x85'))
         elif cat is C.CATEGORY_NOT_SPACE:
-            c = B.ALL - B.pred_cls('isspace')
+            raise Unsupported('\\S')
         else:
             raise Unsupported(cat)
         return c
